@@ -45,6 +45,12 @@ def make_case(rng, base, idx, multi):
     skrun.materialise(d, files)
     adds = []
     restricted = set()
+    # directory / glob registrations first (they create the catalog entries
+    # of several files at once), then per-file registrations over them
+    if rng.random() < 0.5:
+        for di in range(len(defs)):
+            if rng.random() < 0.5:
+                adds.append([di, rng.choice(['*.log', '', 'f*']), True])
     for name in files:
         picked = [i for i in range(len(defs)) if rng.random() < 0.8] or [0]
         for di in picked:
@@ -61,6 +67,10 @@ def make_case(rng, base, idx, multi):
     nruns = rng.choice([1, 1, 2, 3])
     runs = [run] + [dict(run, new_searcher=False) for _ in range(nruns - 1)]
     recipe = {'dir': d, 'constraints': cons, 'defs': defs, 'runs': runs}
+    if rng.random() < 0.5:
+        # small thresholds: mid-file flushes and several batches per flush
+        recipe['patch'] = {'NUM_BUFFERED_RESULTS': rng.choice([1, 2, 5, 7]),
+                           'TRANSIT_MAX': rng.choice([1, 2, 3, 10])}
     return recipe, contents, restricted
 
 
@@ -74,7 +84,7 @@ def expected_lines(recipe, contents, restricted, files):
             out.append(0)
             continue
         lines = G.split_lines(data)
-        on_file = {a[0] for a in run['adds'] if a[1] == name}
+        on_file = {a[0] for a in run['adds'] if reaches(a[1], name)}
         if run['global'] is not None and not (on_file & restricted):
             since = G.since_secs(recipe['constraints'][run['global']])
             pos = G.first_in_window(data, since)
@@ -128,7 +138,7 @@ def run(chk):
                 files = o['files']
                 st = o['stats']
                 regs = [sum(1 for a in recipe['runs'][0]['adds']
-                            if a[1] == f) for f in files]
+                            if reaches(a[1], f)) for f in files]
                 nres = [len(o['results'].get(f, [])) for f in files]
                 nlines = expected_lines(recipe, contents, restricted, files)
                 n = len(files)
@@ -193,9 +203,16 @@ def run(chk):
         "(C01/C02/C03 are about their correctness)"]
 
 
+def reaches(path, name):
+    """ does registering against `path` (file name, '' = the directory, or
+    a glob) reach file `name` (all files are called f<i>.log) """
+    return path == name or path in ('', '*.log', 'f*')
+
+
 def recipe_brief(recipe):
     return {'dir': os.path.basename(recipe['dir']),
             'constraints': recipe['constraints'],
             'defs': [(d['kind'], d.get('patterns') or d.get('tag'))
                      for d in recipe['defs']],
+            'patch': recipe.get('patch'),
             'runs': [{k: v for k, v in r.items()} for r in recipe['runs']]}
